@@ -364,7 +364,7 @@ def run_aes_ctr(ctx, P):
     # starts on the next unused counter block.
     if nbytes == 0:
         return
-    if nbytes <= 20 or (nbytes <= 33 and not ctx.quick):
+    if nbytes <= 20 or (nbytes <= 33 and P.get("full")):
         pats = list(cuts_all(nbytes, False))
     else:
         nb = (nbytes + 15) // 16
@@ -466,7 +466,7 @@ def run_rc4(ctx, P):
         same(ctx, fam, "rc4.decrypt", lc, "rc4_decrypt", got, msg, wit)
     if nbytes == 0:
         return
-    if nbytes <= 20 or (nbytes <= 33 and not ctx.quick):
+    if nbytes <= 20 or (nbytes <= 33 and P.get("full")):
         pats = list(cuts_all(nbytes, False))
     else:
         pats = cuts_random(rng, nbytes, ctx.pick(12, 40),
@@ -1699,7 +1699,7 @@ def make_cases(ctx):
                     ivs = ivs[:1]
                 for iv in sorted(set(ivs)):
                     add("aes_ctr", "k%d-%s-n%d%s" % (kl, iv, n, r),
-                        keylen=kl, iv=iv, n=n)
+                        keylen=kl, iv=iv, n=n, full=(not q and rep == 0))
         # --- 3DES / RC4
         for kl in (24, 16):
             for n in CBC8_LENS:
@@ -1712,7 +1712,8 @@ def make_cases(ctx):
                 add("des3", "k16-n16384", keylen=16, n=16384, dec=False)
         for kl in (16,):
             for n in BYTE_LENS:
-                add("rc4", "k%d-n%d%s" % (kl, n, r), keylen=kl, n=n)
+                add("rc4", "k%d-n%d%s" % (kl, n, r), keylen=kl, n=n,
+                    full=(not q and rep < 2))
         # --- ChaCha20 / Poly1305
         for n in CHACHA_LENS:
             for ck in (("0", "1", "max", "rand") if not q or n in (
